@@ -49,12 +49,17 @@ def g_nstyle(rng, name, wild):
     return out
 
 
+RAWCR = [False]      # known finding C02-raw-eol: raw CR / CR LF spellings of LF are drawn only in the 'rawcr' profile
+
+
 def g_lch(rng, b, wild):
     if rng.random() >= wild:
         return 'raw'
     opts = ['raw', L('oct', '1'), L('oct', '2'), L('oct', '3'), 'ign']
     if b == 0x0a:
-        opts += ['cr', 'crlf', 'cr', 'crlf', 'short']
+        opts += ['short']
+        if RAWCR[0]:
+            opts += ['cr', 'crlf', 'cr', 'crlf']
     if b in (0x0d, 0x09, 0x08, 0x0c, 0x28, 0x29, 0x5c):
         opts += ['short', 'short']
     return rng.choice(opts)
@@ -221,6 +226,7 @@ def g_secs(rng, size, used, wild):
 def gen_write(rng, profile):
     """returns (write line, tags)"""
     wild = {'plain': 0.0, 'mild': 0.4, 'wild': 1.0}[profile['lex']]
+    RAWCR[0] = profile.get('rawcr', False)
     n = rng.choice([1, 2, 3, 5, 8, 12])
     nums = rng.sample(range(1, max(3 * n, 20)), n)
     g = G(rng, wild, nums, deep_parens=profile.get('deep', False))
@@ -261,6 +267,8 @@ def gen_write(rng, profile):
     tr = [(b'Root', REF(nums[0], 0), 'def')]
     if rng.random() < 0.5:
         tr.append((b'Info', REF(rng.choice(all_nums), 0), 'def'))
+    if profile['xref'] == 'stream':
+        RAWCR[0] = False
     if rng.random() < 0.4:
         i1, i2 = rbytes(rng, 16), rbytes(rng, 16)
         tr.append((b'ID', A([H(i1), H(i2)]), L('arr', L(), L(L('str', g_sstyle(rng, i1, wild)), L()), L(L('str', g_sstyle(rng, i2, wild)), L()))))
@@ -328,6 +336,7 @@ PROFILES = [
     ({'lex': 'plain', 'xref': 'stream'}, 1), ({'lex': 'mild', 'xref': 'stream'}, 2), ({'lex': 'wild', 'xref': 'stream'}, 3),
     ({'lex': 'plain', 'xref': 'stream', 'objstm': True}, 1), ({'lex': 'mild', 'xref': 'stream', 'objstm': True}, 3),
     ({'lex': 'wild', 'xref': 'stream', 'objstm': True}, 4),
+    ({'lex': 'wild', 'xref': 'table', 'rawcr': True}, 1), ({'lex': 'wild', 'xref': 'stream', 'objstm': True, 'rawcr': True}, 1),
 ]
 
 
@@ -558,8 +567,12 @@ def stage1(write_cases):
             res.append((L('skipped'), tags))      # keeps the count honest; both sides answer badcase
             continue
         sp = o.index(' ', 6)
+        known = o.endswith('(known 1))')
+        o = o[:o.rindex(' (known')] + ')'
         hexbytes, expected = o[6:sp], o[sp + 1:-1]
-        tags = dict(tags, write=c)
+        tags = dict(tags, write=c, known_raw_eol=known)
+        if known:
+            tags['kind'] += '-rawcr' 
         res.append((L('load', hexbytes, L(*[str(i) for i in tags['ignore']]), expected), tags))
     return res
 
@@ -581,6 +594,13 @@ def gen_cases(rng, tier):
     return cases
 
 
+def classify(line, tags, model_out, impl_out, verdict):
+    """known finding classes, decided on the INPUT: Known_raw_eol (coq/Spec/RefWriter.v) evaluated by the extracted writer"""
+    if tags.get('known_raw_eol'):
+        return 'C02-raw-eol'
+    return None
+
+
 def compare(model, impl):
     if model == impl:
         return True
@@ -596,6 +616,7 @@ SPEC = {
     'bin': 'c02',
     'gen_cases': gen_cases,
     'compare': compare,
+    'classify': classify,
     'rule': '(style, abstract document) pairs: 1-12 objects of every kind nested to depth 3 with adversarial bytes in names and strings, '
             'streams with direct or indirect Length; styles randomise fillers (6 white-space bytes, comments with every EOL), name escapes, '
             'literal/hex string spellings (octal 1-3 digits, short escapes, ignored backslash, continuations, raw EOLs, hex white-space, odd '
